@@ -6,7 +6,7 @@ Import ListNotations.
 Lemma tlogs_nil_no_leader s t : inv1 s -> ~ has_leader s t -> tlogs s t = [].
 Proof. intros I H. destruct (i_T3 I t); tauto. Qed.
 
-Lemma step_hist_le s s' : inv1 s -> Overlap s' -> step s s' -> hist_le s s'.
+Lemma step_hist_le s s' : inv1 s -> NoClash s s' -> step s s' -> hist_le s s'.
 Proof.
   intros I O H. unfold hist_le. inv_step H.
   all: repeat split; try apply incl_refl; try (apply incl_tl; apply incl_refl); try (intros; apply prefix_refl).
@@ -14,21 +14,17 @@ Proof.
   - (* BecomeLeader *)
     intros t. unfold upd. destruct (Nat.eqb_spec t (cur (nodes s c))); [|apply prefix_refl]. subst t.
     rewrite (tlogs_nil_no_leader s _ I); [apply prefix_nil|].
-    eapply (cand_no_leader s _ c (voters (conf (nodes s c))) I O); simpl; eauto.
-    intros x Hx; now right.
+    apply (O c); [exact H0 | simpl; rewrite upd_same; reflexivity].
   - (* LeaderAppend *)
     intros t. unfold upd. destruct (Nat.eqb_spec t (cur (nodes s c))); [|apply prefix_refl]. subst t.
     destruct (i_T1 I _ H0) as [-> _]. apply prefix_app.
 Qed.
 
 Lemma no_leader_at_cand s s' c :
-  inv1 s -> Overlap s' -> In (voters (conf (nodes s c))) (quorums s') -> incl (quorums s) (quorums s') ->
-  rl (nodes s c) = Candidate ->
-  majority (voters (conf (nodes s c))) (grantedb s (cur (nodes s c)) c) = true ->
+  NoClash s s' -> rl (nodes s c) = Candidate -> rl (nodes s' c) = Leader ->
   forall c' el q, ~ In (cur (nodes s c), c', el, q) (leaders s).
 Proof.
-  intros I O HV Hi Hc Hm c' el q Hl.
-  eapply (cand_no_leader s s' c _ I O HV Hi Hc Hm). exists c', el, q. exact Hl.
+  intros NC Hc Hl c' el q Hin. apply (NC c Hc Hl). exists c', el, q. exact Hin.
 Qed.
 
 Lemma pres_T3 s s' : inv1 s -> step s s' -> forall t, tlogs s' t = [] \/ has_leader s' t.
@@ -43,7 +39,7 @@ Proof.
     + apply (i_T3 I).
 Qed.
 
-Lemma pres_T1 s s' : inv1 s -> Overlap s' -> step s s' ->
+Lemma pres_T1 s s' : inv1 s -> NoClash s s' -> step s s' ->
   forall c, rl (nodes s' c) = Leader ->
       log (nodes s' c) = tlogs s' (cur (nodes s' c)) /\
       exists el q, In (cur (nodes s' c), c, el, q) (leaders s').
@@ -55,7 +51,7 @@ Proof.
   - destruct (i_T1 I _ Hc) as [HA [el [q Hl]]].
     destruct (Nat.eqb_spec (cur (nodes s c1)) (cur (nodes s c))) as [E|E].
     + exfalso. rewrite E in Hl.
-      eapply (no_leader_at_cand s _ c I O); simpl; eauto. intros x Hx; now right.
+      eapply (no_leader_at_cand s _ c O H0); [simpl; rewrite upd_same; reflexivity | eauto].
     + split; auto. exists el, q. now right.
   - rewrite Nat.eqb_refl. split; auto. apply (i_T1 I _ H0).
   - destruct (i_T1 I _ Hc) as [HA [el [q Hl]]].
@@ -66,7 +62,7 @@ Proof.
   - destruct H0 as [H0|H0]; rewrite H0 in Hc; discriminate.
 Qed.
 
-Lemma pres_T2 s s' : inv1 s -> Overlap s' -> step s s' ->
+Lemma pres_T2 s s' : inv1 s -> NoClash s s' -> step s s' ->
   forall t c el q, In (t, c, el, q) (leaders s') ->
       prefix el (tlogs s' t) /\
       (forall e, In e (tlogs s' t) -> eterm e <= t) /\
@@ -79,7 +75,7 @@ Proof.
     + intros e He. apply (i_LT I) in He. exact He.
     + intros k e Hk He. assert (k < length (log (nodes s c0))) by (apply nth_error_Some; congruence). lia.
   - rewrite upd_other; [apply (i_T2 I _ _ _ _ Hin)|].
-    intros ->. eapply (no_leader_at_cand s _ c I O); simpl; eauto. intros x Hx; now right.
+    intros ->. eapply (no_leader_at_cand s _ c O H0); [simpl; rewrite upd_same; reflexivity | eauto].
   - destruct (i_T2 I _ _ _ _ Hin) as [A [B C]].
     unfold upd. destruct (Nat.eqb_spec t0 (cur (nodes s c))) as [E|E]; [|auto].
     subst t0. destruct (i_T1 I _ H0) as [HA _]. rewrite HA. repeat split.
@@ -91,7 +87,7 @@ Qed.
 Lemma hist_le_LM s s' l : hist_le s s' -> LMlog (tlogs s) l -> LMlog (tlogs s') l.
 Proof. intros H. apply LMlog_mono. apply H. Qed.
 
-Lemma pres_LMt s s' : inv1 s -> Overlap s' -> step s s' -> forall t, LMlog (tlogs s') (tlogs s' t).
+Lemma pres_LMt s s' : inv1 s -> NoClash s s' -> step s s' -> forall t, LMlog (tlogs s') (tlogs s' t).
 Proof.
   intros I O H. pose proof (step_hist_le s s' I O H) as HL.
   inv_step H; intros t0; try (apply (hist_le_LM _ _ _ HL); apply (i_LMt I)).
@@ -106,7 +102,7 @@ Proof.
     + apply (hist_le_LM _ _ _ HL). apply (i_LMt I).
 Qed.
 
-Lemma pres_CLM s s' : inv1 s -> Overlap s' -> step s s' ->
+Lemma pres_CLM s s' : inv1 s -> NoClash s s' -> step s s' ->
   forall u c cl, In (u, c, cl) (camps s') -> LMlog (tlogs s') cl.
 Proof.
   intros I O H. pose proof (step_hist_le s s' I O H) as HL.
@@ -115,7 +111,7 @@ Proof.
   apply (i_LM I).
 Qed.
 
-Lemma pres_LM s s' : inv1 s -> Overlap s' -> step s s' -> forall j, LMlog (tlogs s') (log (nodes s' j)).
+Lemma pres_LM s s' : inv1 s -> NoClash s s' -> step s s' -> forall j, LMlog (tlogs s') (log (nodes s' j)).
 Proof.
   intros I O H. pose proof (step_hist_le s s' I O H) as HL.
   pose proof (pres_LMt s s' I O H) as HT.
